@@ -123,6 +123,7 @@ func vspecAckType(s message.Type) bool {
 //@ func newAckqueue
 //@   requires 1 <= n && n <= 1073741824
 //@   ensures[C13:wf] vdefAQ(result) && result.count == 0 && fresh(result)
+//@   modifies fields(result)
 
 // insert: registers msg under pktid at the tail unless the id is already in flight (then nothing changes).
 //@ func (*Ackqueue).insert
@@ -231,3 +232,24 @@ func vspecAckType(s message.Type) bool {
 //@   ensures s.initted ==> err == nil && !haskey(s.topics, topic)
 //@   ensures !s.initted ==> err != nil
 //@   modifies mapof(s.topics), heap("GF.clock"), heap("GF.mlockedAt")
+
+
+// ---------------------------------------------------------------- the stored CONNECT and the will (C09)
+// Whenever the stored CONNECT carries a will, the session holds the PUBLISH built from exactly that CONNECT:
+// QoS, retain flag, topic and payload are the CONNECT's will fields (the topic only if it is a valid topic name).
+//@ define vdefWill(s)
+//@   is s.Cmsg != nil && (message.vspecCFWill(s.Cmsg.connectFlags) ==> s.Will != nil && len(s.Will.mtypeflags) == 1 && message.Type(s.Will.mtypeflags[0]>>4) == message.PUBLISH
+//@        && (message.vspecCFWillQos(s.Cmsg.connectFlags) <= 2 ==> message.vspecQoSOf(s.Will.mtypeflags[0]) == message.vspecCFWillQos(s.Cmsg.connectFlags)) && (s.Will.mtypeflags[0]%2 == 1) == message.vspecCFWillRetain(s.Cmsg.connectFlags)
+//@        && sameslice(s.Will.payload, s.Cmsg.willMessage) && ((len(s.Cmsg.willTopic) > 0 && message.vspecNoWild(s.Cmsg.willTopic, 0, len(s.Cmsg.willTopic))) ==> sameslice(s.Will.topic, s.Cmsg.willTopic)))
+
+//@ func (*Session).Init
+//@   results err
+//@   requires msg != nil && !held(addr(s.mu)) && message.vdefConnSizes(msg) && len(msg.mtypeflags) == 1 && len(msg.dbuf) <= 268435460
+//@   ensures[C09:will] err == nil ==> vdefWill(s) && s.initted && s.topics != nil
+//@   modifies fields(s), msg.remlen, msg.dirty, heap("GF.clock"), heap("GF.mlockedAt"), heap("GF.encn"), heap("GF.encarr"), heap("GF.encoff"), heap("GF.encAt")
+
+//@ func (*Session).Update
+//@   results err
+//@   requires msg != nil && !held(addr(s.mu)) && message.vdefConnSizes(msg) && len(msg.mtypeflags) == 1 && len(msg.dbuf) <= 268435460
+//@   ensures[C09:will] err == nil ==> vdefWill(s)
+//@   modifies s.cbuf, s.Cmsg, s.Will, msg.remlen, msg.dirty, heap("GF.clock"), heap("GF.mlockedAt"), heap("GF.encn"), heap("GF.encarr"), heap("GF.encoff"), heap("GF.encAt")
